@@ -289,6 +289,8 @@ def check_C06(ctx, rep):
 
 
 def check_C07(ctx, rep):
+    small_models2.check_cfg_membership(ctx, rep, ctx.prog.func('cfg_algorithms.cfg_accepts_word'))
+    rep.clauses_decided.append('cfg_accepts_word answers True exactly when the start variable derives the word on eight general model grammars (epsilon rules, nullable chains, unit cycles, long right-hand sides) and all words up to length 3, the on-the-fly conversion included; the grammar handed in is untouched (M32, finite model)')
     small_models2.check_chomsky_phases(ctx, rep, [ctx.prog.func('cfg_algorithms.' + n0) for n0 in small_models2._PHASES])
     rep.clauses_decided.append('the five phases of the Chomsky conversion, applied in order to eight model grammars (epsilon rules, nullable chains, unit cycles, long right-hand sides, terminals inside them) under two iteration orders of sets, each keep the words up to length 3 and the declared variables, and the final grammar is in Chomsky normal form (M28, finite model)')
     small_models2.check_cyk(ctx, rep, ctx.prog.func('cfg_algorithms.cfg_cyk_matrix'), ctx.prog.func('cfg_algorithms.cfg_accepts_word'))
